@@ -327,7 +327,9 @@ def run(tier):
     items = reader_inputs(rnd, tier)
     chunks = [items[i::common.NPROC] for i in range(common.NPROC)]
     common.pmap(reader_work, [(rd, "parse", k, c) for k, c in enumerate(chunks) if c], res)
-    small = [it for it in items if len(it[1]) <= 4096][::2 if tier == "quick" else 1]
+    small = [it for it in items if len(it[1]) <= 4096]
+    if tier == "quick":     # every other input, but all of the hand-written pathological / semantic ones (they are few and each is its own case)
+        small = [it for k, it in enumerate(small) if k % 2 == 0 or not it[0].startswith(("prefix", "delete-delimiter", "insert-delimiter", "random", "semantic-soup"))]
     chunks = [small[i::common.NPROC] for i in range(common.NPROC)]
     common.pmap(reader_work, [(rd, "read", k, c) for k, c in enumerate(chunks) if c], res)
     # monitor 2
